@@ -5,44 +5,10 @@
    the same real value and sign are equal.  Axioms: the four real-number axioms of the standard library. *)
 From Coq Require Import ZArith Reals Lia Lra Floats.SpecFloat.
 From Flocq Require Import Core.Core IEEE754.BinarySingleNaN.
-From PyUbx Require Import Base Bytes PyFloat Types Tac Bytes_lemmas.
+From PyUbx Require Import Base Bytes PyFloat Types Tac Bytes_lemmas Flocq_bridge.
 Open Scope R_scope.
 
-Section Fmt.
-Variables prec emax : Z.
-Context (Hp : Prec_gt_0 prec) (Hm : Prec_lt_emax prec emax).
 
-Lemma rne_equiv s m l : round_nearest_even m l = choice_mode mode_NE s m l.
-Proof. case l; [reflexivity|intro c]. case c; [ | reflexivity..]. now simpl; unfold Round.cond_incr; case Z.even. Qed.
-
-Lemma aux_equiv' sx mx ex lx :
-  SpecFloat.binary_round_aux prec emax sx mx ex lx = binary_round_aux prec emax mode_NE sx mx ex lx.
-Proof.
-  unfold SpecFloat.binary_round_aux, binary_round_aux.
-  set (mrse' := shr_fexp _ _ _ _ _). case mrse'; intros mrs' e'; simpl.
-  now rewrite (rne_equiv sx).
-Qed.
-
-Lemma round_equiv' s m e : SpecFloat.binary_round prec emax s m e = binary_round prec emax mode_NE s m e.
-Proof.
-  unfold SpecFloat.binary_round, binary_round, shl_align_fexp.
-  set (mez := shl_align _ _ _); case mez as [mz ez]. apply aux_equiv'.
-Qed.
-
-(* rounding a value that the format represents: same real, finite, same sign *)
-Lemma round_exact s m e :
-  generic_format radix2 (fexp prec emax) (F2R (Float radix2 (cond_Zopp s (Zpos m)) e)) ->
-  Rabs (F2R (Float radix2 (cond_Zopp s (Zpos m)) e)) < bpow radix2 emax ->
-  let z := SpecFloat.binary_round prec emax s m e in
-  valid_binary prec emax z = true /\ SF2R radix2 z = F2R (Float radix2 (cond_Zopp s (Zpos m)) e) /\
-  is_finite_SF z = true /\ sign_SF z = s.
-Proof.
-  intros Hg Hb z. unfold z. rewrite round_equiv'.
-  pose proof (binary_round_correct prec emax Hp Hm mode_NE s m e) as H. cbv zeta in H.
-  destruct H as [Hv H]. rewrite round_generic in H by (auto with typeclass_instances).
-  rewrite Rlt_bool_true in H by exact Hb. destruct H as (Hr & Hf & Hs). auto.
-Qed.
-End Fmt.
 
 #[local] Instance Hp24 : Prec_gt_0 24 := eq_refl.
 #[local] Instance Hm24 : Prec_lt_emax 24%Z 128%Z := eq_refl.
